@@ -45,6 +45,36 @@ check('C19', 'cli',
       'positional.  Known finding F-C19b is reported as KNOWN-FINDING.',
       'DESIGN.md section 4, C19')
 
+ENGINES['llparser'] = ('specs/llparser', ['C01', 'C02', 'C03'],
+                       'LLGrammar.tla (A-spec: nullable/FIRST/FOLLOW, LL(1), left recursion, bounded language, derivation '
+                       'trees), LLCases.tla (grammar builder), LLJudge.tla / LLEval.tla (observation judges); '
+                       'drivers harness/drivers/ll.py, c01.py, c02.py, c03.py')
+_LLNOTE = ('Trusted: TLC; the fixed single-character and keyword/synonym tokenizer configurations; grammar families are '
+           'bounded (see evidence coverage.families); adjacent duplicate alternatives excluded (constructor asserts).')
+check('C01', 'llparser',
+      'TLC-built bounded grammar families replayed on the real LLParser; every returned tree judged by TLC against '
+      'the TLA+ definition of a valid derivation (ValidParse) of the user grammar',
+      'Every grammar of the bounded families (all ordered alternative lists incl. nullable, ambiguous, common-prefix and '
+      'nested-prefix ones, both smart_factorization settings, both dict orders, keyword/synonym tokenizer) is built by '
+      'the TLA+ case builder, parsed by the real parser on all inputs up to the length bound, and every returned tree '
+      'is accepted or rejected by TLC against ValidParse: root, each node a user production, yield = tokens.',
+      _LLNOTE, 'DESIGN.md section 4, C01')
+check('C02', 'llparser',
+      'TLC computes LL(1)-as-written and the bounded language of every grammar of the families from the declarative '
+      'TLA+ FIRST/FOLLOW theory; the real parser must agree on is_ambiguous() and on acceptance of every input',
+      'For every grammar of the bounded families the A-spec (independent FIRST/FOLLOW fixpoints, predict-set '
+      'disjointness, bounded language fixpoint) gives ll1 and the sentence set; the real parser is run on all inputs up '
+      'to the bound, members and non-members, for both smart settings; is_ambiguous() is re-read after the parses.',
+      _LLNOTE, 'DESIGN.md section 4, C02')
+check('C03', 'llparser',
+      'TLC decides LeftRecursive(G) (transitive left-corner relation behind nullable prefixes) for every grammar of the '
+      'families; the real constructor must raise GrammarIsRecursive exactly then; every parse of an accepted grammar '
+      'runs under a deterministic machine-step budget',
+      'All grammars of the families over all name assignments (families are closed under renaming, start symbol varies) '
+      'and both dict orders: constructor outcome compared with the TLA+ left-recursion relation; all inputs up to the '
+      'bound parsed under a step budget counted through the parser debug hooks (no wall-clock verdicts).',
+      _LLNOTE, 'DESIGN.md section 4, C03')
+
 ALL = ['C%02d' % i for i in range(1, 21)]
 
 
